@@ -1122,12 +1122,14 @@ theorem handlePubrec_pres (e : Engine) (a : Ack) : Pres e (e.handlePubrec a).1 :
         rw [hp] at hbranch
         split
         · split
+          · exact Pres.refl _
           · split
-            · exact Pres.refl _
-            · apply completeSuccess_pres
-              intro o' ho' _
-              rw [ho] at ho'; cases ho'; rw [hp]; rfl
-          · exact hbranch
+            · split
+              · exact Pres.refl _
+              · apply completeSuccess_pres
+                intro o' ho' _
+                rw [ho] at ho'; cases ho'; rw [hp]; rfl
+            · exact hbranch
         · exact Pres.refl _
 
 theorem handlePubrel_pres (e : Engine) (a : Ack) : Pres e (e.handlePubrel a).1 := by
